@@ -87,6 +87,14 @@ def make_case(cid, h, rng):
             t['tearDown'] = t.pop('body')
         elif r < 0.45:
             t['body'].append(rng.choice(['fail', {'a': 'error'}, 'skip']))
+    # tests skipped by a decorator run no code at all (and on some CPython
+    # versions never reach startTest): they start no thread, so none may be
+    # reported for them, whatever the tests before them left behind
+    for tid in sorted(tests):
+        if rng.random() < 0.3:
+            tests[tid + 's'] = {'deco': 'skip', 'kind': 'skip_deco'}
+            if rng.random() < 0.4:
+                tests[tid + 'ss'] = {'deco': 'skip', 'kind': 'skip_deco'}
     world = {'id': cid, 'layers': {'L1': {'kind': 'class', 'bases': [],
                                           'hooks': ['setUp', 'tearDown', 'testSetUp', 'testTearDown']}},
              'layer_order': ['L1'],
@@ -114,6 +122,8 @@ def record(case, res):
         elif e['e'] == 'ThreadEnd':
             ev.append({'e': 'E', 't': e['t'], 'th': e['thread'], 'ident': str(e['ident']), 'ign': False,
                        'api': ''})
+    # decorator-skipped tests take their place in the (sorted) execution order
+    order = [t for t in sorted(w['tests']) if t in order or w['tests'][t].get('deco') == 'skip']
     rep = {t: [] for t in order}
     unknown = 0
     for tline, thline in res['report']['threads']:
